@@ -78,6 +78,9 @@ PROPS["C20"] = {
 PROPS["C01"] = {
     "groups": [
         {"crate": "std", "quick": ["c01::"], "jobs": 16, "mem_gb": 6, "timeout_s": 600},
+        # regions: the standard build's MmapRegion / GuestRegionMmap (raw-pointer region) and the Xen build's MmapRegion
+        {"crate": "std", "quick": ["regn::region_get_slice"], "jobs": 2, "mem_gb": 8, "timeout_s": 600, "stubbed": True},
+        {"crate": "xen", "quick": ["x01::unix_region_get_slice"], "jobs": 2, "mem_gb": 10, "timeout_s": 900, "stubbed": True, "kani_flags": ["-Z", "restrict-vtable"]},
     ],
     "bounds": "parent = every window (offset, length) of a 32-byte 8-aligned buffer (all base alignments mod 8, lengths 0..=32); "
               "request arguments (offset, count, n, index, mid) unconstrained usize; element types u8,u16,u32,u64,u128,[u8;3],[u16;2],Le32; "
@@ -151,6 +154,9 @@ PROPS["C06"] = {
 PROPS["C17"] = {
     "groups": [
         {"crate": "std", "quick": ["c17::"], "jobs": 8, "mem_gb": 6, "timeout_s": 600},
+        # (b) Xen build: on-demand grant regions
+        {"crate": "xen", "quick": ["x17::ondemand_write", "x17::ondemand_atomic_store"], "thorough": ["x17::"], "jobs": 2, "mem_gb": 26, "timeout_s": 1800, "stubbed": True,
+         "kani_flags": ["-Z", "restrict-vtable"], "unwindset": {"default": 1, "rules": _XEN_RULES}},
     ],
     "bounds": "(a) standard build: parent = every window of a 32-byte buffer, offset and element count unconstrained, element types u8,u16,u32,u64,u128,[u8;3],Le32",
     "outside": "",
@@ -163,6 +169,8 @@ PROPS["C18"] = {
         {"crate": "std", "quick": ["c18r::gs_read_volatile_from", "c18r::gs_write_all_volatile_to"], "thorough": ["c18r::gs_"],
          "jobs": 4, "mem_gb": 12, "timeout_s": 1500,
          "kani_flags": ["-Z", "restrict-vtable"], "stubbed": True, "unwindset": {"default": 1, "rules": _C14_RULES + [[r"copy_slice_volatile", 9]]}},
+        # Xen build, regions mapped in advance
+        {"crate": "xen", "quick": ["x01::"], "jobs": 2, "mem_gb": 10, "timeout_s": 900, "stubbed": True, "kani_flags": ["-Z", "restrict-vtable"]},
     ],
     "bounds": "slice level: container = every window of a 16-byte buffer with a recording bitmap, address unconstrained usize (stream forms: addresses valid for a non-empty access), "
               "empty buffers, objects [u8;0]/[u16;0]/[u64;0], zero-count stream transfers over a <= 3-byte &[u8]/&mut [u8], copies of <= 3 zero-sized elements, empty container; "
